@@ -312,11 +312,11 @@ impl Decoder {
 
                 match default.method {
                     CryptMethod::V2 | CryptMethod::AESV2 => (
-                        default.length.map(|n| 8 * n).unwrap_or(dict.bits),
+                        default.length.map(|n| n.saturating_mul(8)).unwrap_or(dict.bits),
                         default.method,
                     ),
                     CryptMethod::AESV3 if dict.v == 5 => (
-                        default.length.map(|n| 8 * n).unwrap_or(dict.bits),
+                        default.length.map(|n| n.saturating_mul(8)).unwrap_or(dict.bits),
                         default.method,
                     ),
                     m => err!(other!("unimplemented crypt method {:?}", m)),
@@ -330,6 +330,9 @@ impl Decoder {
         };
         if level <= 4 {
             let key_size = key_bits as usize / 8;
+            if !(5..=16).contains(&key_size) {
+                err!(other!("invalid key length {}", key_bits));
+            }
             let key = key_derivation_user_password_rc4(level, key_size, dict, id, pass);
 
             if check_password_rc4(level, dict.u.as_bytes(), id, &key[..std::cmp::min(key_size, 16)]) {
